@@ -207,6 +207,63 @@ fn simple_cases(rep: &mut Report, initial_if: bool) {
     rep.class(&format!("simple|{}", ifs));
 }
 
+/// Reading the flag "changes nothing else" - including the caller's stack: small leaf functions keep N words of live data in
+/// their frame (on this target possibly in the red zone below RSP), read the flag in the middle, and sum the data up again.
+macro_rules! leaf_with_locals {
+    ($name:ident, $n:expr, $read:expr) => {
+        #[inline(never)]
+        fn $name(seed: u64) -> (u64, u64) {
+            let mut table = [0u64; $n];
+            for (i, slot) in table.iter_mut().enumerate() {
+                unsafe { core::ptr::write_volatile(slot, seed.wrapping_mul(i as u64 + 1)) };
+            }
+            let seen: u64 = $read;
+            let mut sum = 0u64;
+            for slot in table.iter() {
+                sum = sum.wrapping_add(unsafe { core::ptr::read_volatile(slot) });
+            }
+            (sum, seen)
+        }
+    };
+}
+leaf_with_locals!(leaf_ae_1, 1, interrupts::are_enabled() as u64);
+leaf_with_locals!(leaf_ae_2, 2, interrupts::are_enabled() as u64);
+leaf_with_locals!(leaf_ae_3, 3, interrupts::are_enabled() as u64);
+leaf_with_locals!(leaf_ae_4, 4, interrupts::are_enabled() as u64);
+leaf_with_locals!(leaf_ae_8, 8, interrupts::are_enabled() as u64);
+leaf_with_locals!(leaf_ae_15, 15, interrupts::are_enabled() as u64);
+leaf_with_locals!(leaf_raw_1, 1, x86_64::registers::rflags::read_raw());
+leaf_with_locals!(leaf_raw_2, 2, x86_64::registers::rflags::read_raw());
+leaf_with_locals!(leaf_raw_4, 4, x86_64::registers::rflags::read_raw());
+leaf_with_locals!(leaf_raw_8, 8, x86_64::registers::rflags::read_raw());
+leaf_with_locals!(leaf_raw_16, 16, x86_64::registers::rflags::read_raw());
+leaf_with_locals!(leaf_typed_8, 8, x86_64::registers::rflags::read().bits());
+leaf_with_locals!(leaf_wi_8, 8, interrupts::without_interrupts(|| 5u64));
+leaf_with_locals!(leaf_wi_3, 3, interrupts::without_interrupts(|| 5u64));
+
+fn callers_locals(rep: &mut Report, r: &mut Rng) {
+    let fns: [(&str, usize, fn(u64) -> (u64, u64)); 14] = [
+        ("are_enabled", 1, leaf_ae_1), ("are_enabled", 2, leaf_ae_2), ("are_enabled", 3, leaf_ae_3), ("are_enabled", 4, leaf_ae_4), ("are_enabled", 8, leaf_ae_8), ("are_enabled", 15, leaf_ae_15),
+        ("rflags::read_raw", 1, leaf_raw_1), ("rflags::read_raw", 2, leaf_raw_2), ("rflags::read_raw", 4, leaf_raw_4), ("rflags::read_raw", 8, leaf_raw_8), ("rflags::read_raw", 16, leaf_raw_16),
+        ("rflags::read", 8, leaf_typed_8), ("without_interrupts", 8, leaf_wi_8), ("without_interrupts", 3, leaf_wi_3),
+    ];
+    let regs = trapemu::regs();
+    regs.mirror_if = true;
+    for (what, n, f) in fns {
+        for _ in 0..4 {
+            rep.eval();
+            regs.set_if(r.chance(1, 2));
+            let seed = core::hint::black_box(r.next());
+            let ((sum, _seen), _evs) = trapemu::trapped(|| f(seed));
+            let exp = (1..=n as u64).fold(0u64, |a, i| a.wrapping_add(seed.wrapping_mul(i)));
+            if sum != exp {
+                rep.violation(&format!("{}|clobbers-its-callers-stack-locals", what), J::obj(vec![("profile", J::s(crate::util::profile_name())), ("words_of_live_data", J::U(n as u64)), ("expected_sum", J::hex(exp)), ("got", J::hex(sum))]));
+            }
+        }
+        rep.class(&format!("callers-locals|{}|{}-words", what, n));
+    }
+}
+
 pub fn run(a: &Args, rep: &mut Report) {
     trapemu::install();
     let mut r = Rng::derive(a.seed, "c17", a.shard);
@@ -215,6 +272,7 @@ pub fn run(a: &Args, rep: &mut Report) {
             simple_cases(rep, i);
         }
     }
+    callers_locals(rep, &mut r);
     let n = a.budget(4_000, 2_000_000);
     for k in 0..n {
         let initial = r.chance(1, 2);
